@@ -13,7 +13,7 @@ use crate::runner::Runner;
 use crate::util::Rng;
 use std::cell::Cell;
 use std::sync::atomic::{AtomicU32, AtomicU64, Ordering};
-use std::sync::{Arc, Barrier, Mutex};
+use std::sync::{Arc, Mutex};
 
 const NSLOTS: usize = 7;
 const SLOT_NAMES: [&str; NSLOTS] =
@@ -89,13 +89,54 @@ fn expect(slot: usize, h: &[u8], n: [u8; 3]) -> u64 {
     }
 }
 
-fn make_call(rng: &mut Rng, slot: usize) -> Call {
+/// Reusable spin barrier: threads leave it within nanoseconds of each other
+/// (a futex-based barrier staggers wake-ups by microseconds, which is longer
+/// than the windows we are trying to hit).
+struct SpinBarrier {
+    n: usize,
+    count: std::sync::atomic::AtomicUsize,
+    generation: std::sync::atomic::AtomicUsize,
+}
+
+impl SpinBarrier {
+    fn new(n: usize) -> SpinBarrier {
+        SpinBarrier {
+            n,
+            count: std::sync::atomic::AtomicUsize::new(0),
+            generation: std::sync::atomic::AtomicUsize::new(0),
+        }
+    }
+    fn wait(&self) {
+        let gen = self.generation.load(Ordering::Acquire);
+        if self.count.fetch_add(1, Ordering::AcqRel) + 1 == self.n {
+            self.count.store(0, Ordering::Release);
+            self.generation.fetch_add(1, Ordering::AcqRel);
+        } else {
+            let mut spins = 0u32;
+            while self.generation.load(Ordering::Acquire) == gen {
+                spins += 1;
+                if cfg!(miri) || spins > 20_000 {
+                    std::thread::yield_now();
+                } else {
+                    std::hint::spin_loop();
+                }
+            }
+        }
+    }
+}
+
+const ALPHA: [u8; 8] = [b'a', b'b', b'c', 0x00, 0x80, 0xFF, b'\n', b'z'];
+
+fn make_call(rng: &mut Rng, slot: usize, nd: [u8; 3]) -> Call {
     let len = [0usize, 3, 15, 16, 31, 32, 33, 64, 100, 257, 1000][rng.below(11) as usize] + rng.below(3) as usize;
     let len = if cfg!(miri) { len.min(70) } else { len };
-    let nd = [b'a' + rng.byte() % 3, 0x80, 0xFF];
+    // needles come from a small shared alphabet and the haystack is made of
+    // that alphabet plus filler, so that a call which (through a race) is
+    // answered for ANOTHER thread's needles almost always gives a different
+    // result from the sequential one
     let mut hay = vec![0u8; len];
     for b in hay.iter_mut() {
-        *b = if rng.below(12) == 0 { nd[rng.below(3) as usize] } else { b'd' + rng.byte() % 20 };
+        *b = if rng.below(10) == 0 { ALPHA[rng.below(8) as usize] } else { b'd' + rng.byte() % 20 };
     }
     let expected = expect(slot, &hay, nd);
     Call { slot, hay, nd, expected }
@@ -109,6 +150,15 @@ pub fn concurrent(r: &mut Runner, threads: usize) {
     // --- (a) first-call race ------------------------------------------------
     // everything each thread needs is computed before the barrier, without
     // touching memchr
+    // mode 0: every thread visits the seven routines in its own order;
+    // mode 1 ("lockstep"): all threads use one order and meet at a barrier
+    // before each first call, so that all of them are inside the same
+    // routine's `detect` at once
+    let lockstep = r.shard % 2 == 1;
+    let mut common: Vec<usize> = (0..NSLOTS).collect();
+    for i in (1..NSLOTS).rev() {
+        common.swap(i, r.rng.below(i as u64 + 1) as usize);
+    }
     let mut plans: Vec<Vec<Call>> = Vec::new();
     for t in 0..threads {
         let mut rng = r.rng.fork(t as u64 + 1);
@@ -116,16 +166,28 @@ pub fn concurrent(r: &mut Runner, threads: usize) {
         for i in (1..NSLOTS).rev() {
             order.swap(i, rng.below(i as u64 + 1) as usize);
         }
-        let mut plan: Vec<Call> = order.iter().map(|&s| make_call(&mut rng, s)).collect();
+        if lockstep {
+            order = common.clone();
+        }
+        // every thread keeps its own needles for all of its calls, so that
+        // state left behind by a lost race (e.g. a cache keyed on the needle)
+        // is exercised again by the later calls and by the post-race re-check
+        let nd = [
+            ALPHA[rng.below(8) as usize],
+            ALPHA[rng.below(8) as usize],
+            ALPHA[rng.below(8) as usize],
+        ];
+        let mut plan: Vec<Call> = order.iter().map(|&s| make_call(&mut rng, s, nd)).collect();
         for _ in 0..more {
             let s = rng.below(NSLOTS as u64) as usize;
-            plan.push(make_call(&mut rng, s));
+            plan.push(make_call(&mut rng, s, nd));
         }
         plans.push(plan);
     }
-    let barrier = Arc::new(Barrier::new(threads));
+    let barrier = Arc::new(SpinBarrier::new(threads));
     let bad: Arc<Mutex<Vec<(Call, u64)>>> = Arc::new(Mutex::new(Vec::new()));
     let mut handles = Vec::new();
+    let recheck: Vec<Call> = plans.iter().flat_map(|p| p.iter().take(NSLOTS + 4).cloned()).collect();
     let mut hashes: Vec<u64> = Vec::new();
     for (t, plan) in plans.iter().enumerate().take(2) {
         let order: Vec<&str> = plan.iter().take(NSLOTS).map(|c| SLOT_NAMES[c.slot]).collect();
@@ -154,7 +216,10 @@ pub fn concurrent(r: &mut Runner, threads: usize) {
         let bad = bad.clone();
         handles.push(std::thread::spawn(move || {
             barrier.wait();
-            for c in &plan {
+            for (k, c) in plan.iter().enumerate() {
+                if lockstep && k > 0 && k < NSLOTS {
+                    barrier.wait();
+                }
                 SLOT.with(|s| s.set(c.slot));
                 let got = call(c);
                 if got != c.expected {
@@ -172,6 +237,21 @@ pub fn concurrent(r: &mut Runner, threads: usize) {
     for h in hashes {
         r.rep.mark(h, true);
     }
+    // post-race re-check: the same calls again, sequentially, from this
+    // thread - whatever the racing installations left behind must still give
+    // the sequential answers
+    let mut sticky = 0u64;
+    for c in &recheck {
+        SLOT.with(|s| s.set(c.slot));
+        let got = call(c);
+        r.rep.evals += 1;
+        if got != c.expected {
+            sticky += 1;
+            bad.lock().unwrap().push((c.clone(), got));
+        }
+    }
+    r.rep.count("post_race_rechecks", recheck.len() as u64);
+    r.rep.count("post_race_wrong", sticky);
     for (c, got) in bad.lock().unwrap().iter() {
         let (n, rev) = match c.slot {
             0 => (1, false),
@@ -214,6 +294,7 @@ pub fn concurrent(r: &mut Runner, threads: usize) {
     r.rep.count("slots_with_2plus_racers", with2);
     r.rep.count("slots_raced", NSLOTS as u64);
     r.rep.count("processes", 1);
+    r.rep.count(if lockstep { "processes_lockstep" } else { "processes_free_order" }, 1);
     r.rep.count("threads", threads as u64);
     crate::hooks::set_failpoint(None);
 
@@ -240,14 +321,28 @@ fn shared_objects(r: &mut Runner, threads: usize) {
     let bad: Mutex<Vec<String>> = Mutex::new(Vec::new());
     let mut evals = 0u64;
     let mut hashes: Vec<u64> = Vec::new();
-    let per_thread = if cfg!(miri) { 3 } else { 12 };
-    for ndl in &needles {
+    let per_thread = if cfg!(miri) { 3 } else { 6 };
+    // several rounds per needle: every round builds fresh finders, i.e. a
+    // fresh "first use" for all threads to race on
+    let rounds = if cfg!(miri) { 1 } else { 6 };
+    let round_needles: Vec<&Vec<u8>> = (0..rounds).flat_map(|_| needles.iter()).collect();
+    for ndl in round_needles {
         // thread-specific haystacks and sequential answers
         let mut work: Vec<Vec<(Vec<u8>, Option<usize>, Option<usize>)>> = Vec::new();
         for _ in 0..threads {
             let mut v = Vec::new();
-            for _ in 0..per_thread {
-                let hl = [10usize, 40, 70, 200, 600][rng.below(5) as usize];
+            for k in 0..per_thread {
+                // the first searches of every thread go through the
+                // short-haystack routes (below 16 bytes / below the vector
+                // minimum): whatever a finder sets up lazily on first use is
+                // then set up by all threads at once
+                let hl = if k == 0 {
+                    (ndl.len() + rng.range(0, 6)).max(3)
+                } else if k == 1 {
+                    ndl.len() + 14 + rng.range(0, 20)
+                } else {
+                    [10usize, 40, 70, 200, 600][rng.below(5) as usize]
+                };
                 let hl = if cfg!(miri) { hl.min(90) } else { hl };
                 let mut hay = vec![0u8; hl];
                 if rng.chance(1, 3) {
@@ -257,7 +352,7 @@ fn shared_objects(r: &mut Runner, threads: usize) {
                 } else {
                     rng.fill(&mut hay, b"abcd e");
                 }
-                if ndl.len() <= hl && rng.chance(2, 3) {
+                if ndl.len() <= hl && (k < 2 || rng.chance(2, 3)) {
                     let d = rng.range(0, hl - ndl.len());
                     hay[d..d + ndl.len()].copy_from_slice(ndl);
                 }
@@ -279,8 +374,10 @@ fn shared_objects(r: &mut Runner, threads: usize) {
         let owned = memmem::Finder::new(&nbuf).into_owned();
         #[cfg(feature = "alloc")]
         let owned_rev = memmem::FinderRev::new(&nbuf).into_owned();
+        let gate = SpinBarrier::new(work.len());
         std::thread::scope(|s| {
             for (t, w) in work.iter().enumerate() {
+                let gate = &gate;
                 let finder = &finder;
                 let finder_rev = &finder_rev;
                 let bad = &bad;
@@ -289,6 +386,7 @@ fn shared_objects(r: &mut Runner, threads: usize) {
                 #[cfg(feature = "alloc")]
                 let mine_rev = owned_rev.clone();
                 s.spawn(move || {
+                    gate.wait();
                     for (hay, ef, er) in w {
                         let g = finder.find(hay);
                         if g != *ef {
